@@ -25,7 +25,7 @@ ASSUMPTIONS = ["an observation made at exactly the warm-up time by an event that
 
 
 def plan(tier):
-    n = 8000 if tier == "quick" else 200000
+    n = 8000 if tier == "quick" else 400000
     return {"cases": n, "shards": 12, "timeout": 900 if tier == "quick" else 5400, "min_nontrivial": 100,
             "min": {"statistics_compared": 2000, "published_values_compared": 20000, "warmup_placements_checked": 1000,
                     "persistent_time_averages": 200}}
